@@ -249,6 +249,7 @@ pub fn body<D: Dd>(c: &DdCase) {
 
     // ---- the compilation under test
     t.reset_monitor();
+    t.mon.lock().unwrap().expect_depth = Some(l0);
     let inp = CompilationInput { comp_type: c.comp, problem: &t, relaxation: &t, ranking: &ranking, cutoff: &cutoff, max_width: c.width, residual: &root_sp, best_lb: lb, cache: &cache, dominance: &dominance };
     let res = dd.compile(&inp).expect("no cutoff was requested");
     let bv = dd.best_value();
